@@ -306,7 +306,8 @@ class Run:
         else:
             code = EXIT_OK
         if self.violations:
-            code = EXIT_VIOLATION if not self.broken else code
+            # a violation with its replay file stands even when another part of the check could not run (the broken parts are printed above)
+            code = EXIT_VIOLATION
         print('%s %s: %d obligations, %d discharged, %d bounded clauses (%d evaluations), %d violations, %d undecided, %.1fs -> exit %d'
               % (self.prop, self.tier, n_ob, n_dis, len(self.bounded), ev_total, len(self.violations), len(self.undecided), time.time() - self.t0, code))
         return code
